@@ -1,5 +1,6 @@
 import Driver.Util
 import Driver.State
+import Driver.Api
 import GFS.Model.Range
 import GFS.Model.RangeHeader
 import GFS.Spec.RangeSpec
@@ -144,23 +145,29 @@ def handle (toks : List String) : String :=
     | _ => "bad-op\t-"
   | _ => "bad-op\t-"
 
-partial def loop (h : IO.FS.Stream) (out : IO.FS.Stream) (st : DState) : IO Unit := do
+partial def loop (h : IO.FS.Stream) (out : IO.FS.Stream) (st : DState) (ap : ApiState) : IO Unit := do
   let line ← h.getLine
   if line.isEmpty then return ()
   let toks := (line.trimAscii.toString.splitOn " ").filter (· ≠ "")
+  match stepApi ap toks with
+  | some (ap', m, s) =>
+    out.putStrLn (m ++ "\t" ++ s)
+    out.flush
+    loop h out st ap'
+  | none =>
   match stepState st toks with
   | some (st', m, s) =>
     out.putStrLn (m ++ "\t" ++ s)
     out.flush
-    loop h out st'
+    loop h out st' ap
   | none =>
     out.putStrLn (handle toks)
     out.flush
-    loop h out st
+    loop h out st ap
 
 end Driver
 
 def main : IO Unit := do
   let stdin ← IO.getStdin
   let stdout ← IO.getStdout
-  Driver.loop stdin stdout {}
+  Driver.loop stdin stdout {} {}
